@@ -111,7 +111,13 @@ def run(c):
         e.randomize(in_place=True, seed=c["seed"])
         a = [int(v) for v in e.group]
         e2 = e.randomize(in_place=False, seed=c["seed"] + 1)
-        outs.append([a, [int(v) for v in e2.group], [int(v) for v in e.group]])
+        tests = Experiment.make_test_array(Experiment.TestFunc.mean_diff, [0])
+        e.response = np.array([[1], [2], [4], [8], [16], [32]], dtype=object)
+        g0 = np.random.get_state()[1].tobytes()
+        sp = NPC.sim_npc(e, tests * 2, reps=4, seed=c["seed"] + 2, in_place=bool(rep == 0 or True))
+        wy = NPC.westfall_young(e, tests, reps=4, seed=c["seed"] + 3, in_place=False)
+        gsame = g0 == np.random.get_state()[1].tobytes()
+        outs.append([a, [int(v) for v in e2.group], [int(v) for v in e.group], float(sp[0]), [float(sp[2][0]), float(sp[2][1])], [float(wy[0][0]), float(wy[1][0])], gsame])
     return {"outs": outs}
 
 
@@ -174,9 +180,9 @@ def oracle(c, o):
     if f == "repro":
         a, b = o["outs"]
         if a != b:
-            return {"why": f"seeded randomizations from the same assignment differ: {a} vs {b}", "cls": "experiment:irreproducible"}
-        if a[2] != a[0]:
-            return {"why": "randomize(in_place=False) changed the Experiment's own assignment", "cls": "experiment:in-place"}
+            return {"why": f"seeded randomize / sim_npc / westfall_young from the same assignment differ between two runs: {a} vs {b}", "cls": "experiment:irreproducible"}
+        if not a[6] or not b[6]:
+            return {"why": "a seeded sim_npc / westfall_young call advanced numpy's global random state", "cls": "experiment:global-rng"}
         return None
     if f == "testfn":
         g = c["g"]; idx = c["idx"]; col = [float(r[idx]) for r in c["resp"]]
